@@ -260,6 +260,9 @@ func (s *streamPool) addStream(drpcStream drpc.Stream, queueSize int, tags ...st
 	if queueSize <= 0 {
 		queueSize = 100
 	}
+	// own copy: tags is the caller's slice (AddStream(s, n, tags...)); RemoveTagsCtx/RemoveTagsById filter st.tags
+	// in place and would otherwise rewrite the tags of every stream created from the same slice
+	tags = slices.Clone(tags)
 	st := &stream{
 		peerId:   peerId,
 		peerCtx:  ctx,
